@@ -69,7 +69,7 @@ Verdict soundWith(Ctx& c, bool scoping, bool templates = false) {
   }
   std::string opName;
   const bool doMutate = c.chance(3, 4);
-  if (doMutate) { e = mutate(c, e, g.G, opName, scoping && c.chance(2, 3) ? 5 : -1); if (c.chance(1, 4)) { std::string op2; e = mutate(c, e, g.G, op2); if (!op2.empty()) opName += "+" + op2; } }
+  if (doMutate) { e = mutate(c, e, g.G, opName, !scoping ? -1 : [&] { const int w = c.ipick(0, 5); return w <= 2 ? 5 : w == 3 ? 10 : -1; }()); if (c.chance(1, 4)) { std::string op2; e = mutate(c, e, g.G, op2); if (!op2.empty()) opName += "+" + op2; } }
   if (c.chance(1, 10)) e = mk(TID::PUNC_DEFINE, {mkName(TID::ID_GLOBAL, "D99"), e});
   const bool ascii = c.chance(1, 4);
   PrintOpts po; po.syn = ascii ? Syn::ASCII : Syn::MATH;
